@@ -317,13 +317,13 @@ class BaseCommand(FlockMixin, ABC):
                 )
             )
 
-        if self.config.hooks:
-            self.run_hook(HookVariant.PRE)
-
-        await self._db_insert_run_meta()
-
         exit_code = 0
         try:
+            if self.config.hooks:
+                self.run_hook(HookVariant.PRE)
+
+            await self._db_insert_run_meta()
+
             exit_code = await self.run()
         # Under asyncio.run() a Ctrl-C is delivered as cancellation of the main task.
         except (KeyboardInterrupt, asyncio.CancelledError):
